@@ -18,7 +18,8 @@
      how it was constructed or of earlier solves.  The harness checks exactly that reading (HISTORY cells: solve twice,
      re-assign each public attribute between solves, two objects sharing arrays -- result identical to a fresh solver). *)
 From CV Require Import Base.Tac Base.LinAlg Base.Cmp Base.QcLin Model.C16_Solve
-     Proofs.C16_CG Proofs.C16_Prox Proofs.C16_Wrap Proofs.C16_Spec Proofs.C16_Grad Proofs.C16_Mono Proofs.C16_LMfull Proofs.C16_Dim Proofs.C16_Conj Proofs.C16_ConjSpec.
+     Proofs.C16_CG Proofs.C16_Prox Proofs.C16_Wrap Proofs.C16_Spec Proofs.C16_Grad Proofs.C16_Mono Proofs.C16_LMfull Proofs.C16_Dim Proofs.C16_Conj Proofs.C16_ConjSpec
+     Proofs.C16_LMdesc Proofs.C16_LMdescSpec Proofs.C16_Exit Proofs.C16_Precond.
 From Coq Require Import Reals QArith Qcanon Ring.
 From Coquelicot Require Import Coquelicot.
 
@@ -689,3 +690,329 @@ Example C16_nonvacuous :
   q_pg_map (qmatvec (qmat ((1%Q :: nil) :: nil))) (qmattvec 1 (qmat ((1%Q :: nil) :: nil))) (qvec (2%Q :: nil)) (q_prox (PxL1 1)) 1%Qc (qvec (1%Q :: nil)) = qvec (1%Q :: nil).
 Proof. exact nonvacuous_ex. Qed.
 Print Assumptions C16_nonvacuous.
+
+(* ------------------------------------------------------------------------------------------------
+   third deepening round: the Levenberg-Marquardt ITERATION (not only its bookkeeping and stopping rule)
+   ------------------------------------------------------------------------------------------------
+   Notation of these theorems (Proofs/C16_LMdesc.v; all are plain abbreviations of model terms, for a state st):
+     step_s st     = solve (lm_matrix n (lm_J st) (lm_nu st)) (lm_g st)       the step the linear solver returns
+     step_xtemp st = lm_x st - step_s st                                       the trial point
+     step_ftemp st = half_sq (F (step_xtemp st))                               the trial objective 1/2|F(xtemp)|^2
+     step_ratio st = lm_ratio (lm_f st) (step_ftemp st) (lm_x st) (step_xtemp st) (lm_g st)     the gain ratio the code forms
+     solved st     = length (step_s st) = n /\ lm_matrix ... * step_s st = lm_g st              "LA.solve returned a solution"
+   The linear solver stays an oracle; `solved` is asked only of the systems that actually occur.
+   Guards, explicit: the carrier is totally ordered (`embedding`: no NaN, no rounding) -- the two open LM findings live
+   outside it and keep their replayed witnesses (harness W_LM_NAN: LM.solve|stagnation-returns-nan needs f - ftemp to ROUND to 0;
+   W_LM_NU0: LM.solve|absolute-nu0-floor-stalls-small-residuals is about the NUMBER of iterations, on which these theorems
+   are silent: they hold for every iteration count, including runs that end at maxit). *)
+
+(* the matrix handed to LA.solve / spsolve, J.T@J + nu*I as the model builds it (transpose, matmul, add_diag), acts as
+   s |-> J^T (J s) + nu s, for every size *)
+Theorem C16_lm_damped_normal_matrix :
+  forall (T : Type) (t0 t1 : T) (tadd tmul tsub : T -> T -> T) (topp : T -> T),
+  ring_theory t0 t1 tadd tmul tsub topp eq ->
+  forall (k : nat) (J : list (list T)) (nu : T) (s : list T), wf_mat k J -> length s = k ->
+  matvec t0 tadd tmul (lm_matrix T t0 t1 tadd tmul k J nu) s =
+  vadd tadd (mattvec t0 tadd tmul k J (matvec t0 tadd tmul J s)) (vscale tmul nu s).
+Proof. exact lm_matrix_apply_pkg. Qed.
+Print Assumptions C16_lm_damped_normal_matrix.
+
+(* ONE iteration, any state with nu >= 0 and non-zero gradient g = J^T r, solver returned a solution s of (J^T J + nu I) s = g:
+     <s, g> = |J s|^2 + nu |s|^2 > 0   (s is a descent direction of 1/2|F|^2);
+     the gain ratio the code computes -- in both branches of `if (num != 0) and (den != 0)` -- is 2 (f - ftemp) / <s, g>;
+     hence the test `ratio < mu0 = 0` REJECTS exactly the trial points that increase the objective: accepted iff ftemp <= f;
+     on rejection x, f are kept and nu <- max(2 nu, nu0);  in either case the objective does not increase. *)
+Theorem C16_lm_step_descent :
+  forall (T : Type) (t0 t1 : T) (tadd tmul tsub : T -> T -> T) (topp : T -> T),
+  ring_theory t0 t1 tadd tmul tsub topp eq ->
+  forall (tdiv : T -> T -> T) (tleb : T -> T -> bool) (phi : T -> R),
+  embedding T t0 t1 tadd tmul tsub topp tleb phi ->
+  (forall a b, phi b <> 0%R -> phi (tdiv a b) = (phi a / phi b)%R) ->
+  forall (F : list T -> list T) (Jf : list T -> list (list T)) (solve : list (list T) -> list T -> list T)
+         (rnorm : list T -> T) (n : nat) (nu0 : T) (st : lm_state T),
+  length (lm_x T st) = n -> wf_mat n (lm_J T st) -> length (lm_g T st) = n ->
+  solved T t0 t1 tadd tmul solve n st -> (0 <= phi (lm_nu T st))%R -> phi (normsq t0 tadd tmul (lm_g T st)) <> 0%R ->
+  let st' := lm_step T t0 t1 tadd tmul tsub topp tdiv tleb F Jf solve rnorm n nu0 st in
+  let s := step_s T t0 t1 tadd tmul solve n st in
+  let ftemp := step_ftemp T t0 t1 tadd tmul tsub tdiv F solve n st in
+  (0 < phi (dot t0 tadd tmul s (lm_g T st)))%R /\
+  dot t0 tadd tmul s (lm_g T st) =
+    tadd (normsq t0 tadd tmul (matvec t0 tadd tmul (lm_J T st) s)) (tmul (lm_nu T st) (normsq t0 tadd tmul s)) /\
+  phi (step_ratio T t0 t1 tadd tmul tsub topp tdiv tleb F solve n st) =
+    (2 * (phi (lm_f T st) - phi ftemp) / phi (dot t0 tadd tmul s (lm_g T st)))%R /\
+  (((phi ftemp <= phi (lm_f T st))%R /\ lm_x T st' = step_xtemp T t0 t1 tadd tmul tsub solve n st /\ lm_f T st' = ftemp) \/
+   ((phi (lm_f T st) < phi ftemp)%R /\ lm_x T st' = lm_x T st /\ lm_f T st' = lm_f T st /\
+    lm_nu T st' = rmax T tleb (tmul (rtwo T t1 tadd) (lm_nu T st)) nu0)) /\
+  (phi (lm_f T st') <= phi (lm_f T st))%R.
+Proof. exact lm_step_descent_pkg. Qed.
+Print Assumptions C16_lm_step_descent.
+
+(* the nu (lambda) schedule of one iteration, no hypothesis on the solver: with r the gain ratio,
+     r < 0: rejected, x and f kept;  r >= 0: accepted;
+     r < 1/4: nu <- max(2 nu, nu0) (floor nu0);   1/4 <= r <= 3/4: nu kept;
+     r > 3/4: nu <- nu/2, cut to EXACTLY 0 when nu/2 < nu0;      and nu >= 0 is preserved (whatever the sign of nu0). *)
+Theorem C16_lm_nu_schedule :
+  forall (T : Type) (t0 t1 : T) (tadd tmul tsub : T -> T -> T) (topp : T -> T),
+  forall (tdiv : T -> T -> T) (tleb : T -> T -> bool) (phi : T -> R),
+  embedding T t0 t1 tadd tmul tsub topp tleb phi ->
+  (forall a b, phi b <> 0%R -> phi (tdiv a b) = (phi a / phi b)%R) ->
+  forall (F : list T -> list T) (Jf : list T -> list (list T)) (solve : list (list T) -> list T -> list T)
+         (rnorm : list T -> T) (n : nat) (nu0 : T) (st : lm_state T),
+  let st' := lm_step T t0 t1 tadd tmul tsub topp tdiv tleb F Jf solve rnorm n nu0 st in
+  let r := phi (step_ratio T t0 t1 tadd tmul tsub topp tdiv tleb F solve n st) in
+  let nu := phi (lm_nu T st) in
+  ((r < 0)%R -> lm_x T st' = lm_x T st /\ lm_f T st' = lm_f T st) /\
+  ((0 <= r)%R -> lm_x T st' = step_xtemp T t0 t1 tadd tmul tsub solve n st /\ lm_f T st' = step_ftemp T t0 t1 tadd tmul tsub tdiv F solve n st) /\
+  ((r < / 4)%R -> phi (lm_nu T st') = Rmax (2 * nu) (phi nu0)) /\
+  ((/ 4 <= r <= 3 / 4)%R -> lm_nu T st' = lm_nu T st) /\
+  ((3 / 4 < r)%R -> (nu / 2 < phi nu0)%R -> lm_nu T st' = t0) /\
+  ((3 / 4 < r)%R -> (phi nu0 <= nu / 2)%R -> phi (lm_nu T st') = (nu / 2)%R) /\
+  ((0 <= nu)%R -> (0 <= phi (lm_nu T st'))%R).
+Proof. intros T t0 t1 tadd tmul tsub topp tdiv tleb phi E Hd F Jf solve rnorm n nu0 st.
+       exact (lm_nu_schedule_pkg T t0 t1 tadd tmul tsub topp tdiv tleb phi E Hd F Jf solve rnorm n nu0 st). Qed.
+Print Assumptions C16_lm_nu_schedule.
+
+(* a fixed point of the iteration -- the solver returns the zero step for the system (J^T J + nu I) s = g -- has g = J^T r = 0:
+   the first-order condition holds exactly there *)
+Theorem C16_lm_fixed_point :
+  forall (T : Type) (t0 t1 : T) (tadd tmul tsub : T -> T -> T) (topp : T -> T),
+  ring_theory t0 t1 tadd tmul tsub topp eq ->
+  forall (solve : list (list T) -> list T -> list T) (n : nat) (st : lm_state T),
+  matvec t0 tadd tmul (lm_matrix T t0 t1 tadd tmul n (lm_J T st) (lm_nu T st)) (step_s T t0 t1 tadd tmul solve n st) = lm_g T st ->
+  step_s T t0 t1 tadd tmul solve n st = vzero t0 n -> lm_g T st = vzero t0 n.
+Proof. exact lm_step_fixed_point. Qed.
+Print Assumptions C16_lm_fixed_point.
+
+(* THE WHOLE RUN of LM(...).solve(), every iteration count (also runs that end at maxit): if LA.norm is a norm whose square is the
+   sum of squares, gradtol >= 0, the Jacobian has n columns and the linear solver returns solutions of the systems it is handed,
+   then at every iteration <s,g> > 0, the step is accepted iff the trial objective does not exceed the current one, the objective
+   1/2|F|^2 never increases, nu stays >= 0 -- and the returned point is no worse than the start: 1/2|F(x)|^2 <= 1/2|F(x0)|^2. *)
+Theorem C16_lm_descent :
+  forall (T : Type) (t0 t1 : T) (tadd tmul tsub : T -> T -> T) (topp : T -> T),
+  ring_theory t0 t1 tadd tmul tsub topp eq ->
+  forall (tdiv : T -> T -> T) (tleb : T -> T -> bool) (phi : T -> R),
+  embedding T t0 t1 tadd tmul tsub topp tleb phi ->
+  (forall a b, phi b <> 0%R -> phi (tdiv a b) = (phi a / phi b)%R) ->
+  forall (F : list T -> list T) (Jf : list T -> list (list T)) (solve : list (list T) -> list T -> list T)
+         (rnorm : list T -> T) (n : nat) (nu0 gradtol : T) (x0 : list T) (maxit : nat) (st : lm_state T) (i : nat),
+  (forall x, length x = n -> wf_mat n (Jf x)) ->
+  (forall v, length v = n -> (0 <= phi (rnorm v))%R /\ (phi (rnorm v) * phi (rnorm v))%R = phi (normsq t0 tadd tmul v)) ->
+  (0 <= phi gradtol)%R -> length x0 = n ->
+  lm_solve T t0 t1 tadd tmul tsub topp tdiv tleb F Jf solve rnorm n nu0 gradtol x0 maxit = (st, i) ->
+  let tr := fun j => lm_iter T t0 t1 tadd tmul tsub topp tdiv tleb F Jf solve rnorm n nu0 j (lm_init T t0 t1 tadd tmul tdiv F Jf rnorm n x0) in
+  let ftemp := step_ftemp T t0 t1 tadd tmul tsub tdiv F solve n in
+  (forall j, (j < i)%nat -> solved T t0 t1 tadd tmul solve n (tr j)) ->
+  st = tr i /\
+  (forall j, (j <= i)%nat -> lm_f T (tr j) = half_sq T t0 t1 tadd tmul tdiv (F (lm_x T (tr j))) /\ (0 <= phi (lm_nu T (tr j)))%R /\ length (lm_x T (tr j)) = n) /\
+  (forall j, (j < i)%nat ->
+     (0 < phi (dot t0 tadd tmul (step_s T t0 t1 tadd tmul solve n (tr j)) (lm_g T (tr j))))%R /\
+     (((phi (ftemp (tr j)) <= phi (lm_f T (tr j)))%R /\ lm_x T (tr (S j)) = step_xtemp T t0 t1 tadd tmul tsub solve n (tr j) /\ lm_f T (tr (S j)) = ftemp (tr j)) \/
+      ((phi (lm_f T (tr j)) < phi (ftemp (tr j)))%R /\ lm_x T (tr (S j)) = lm_x T (tr j) /\ lm_f T (tr (S j)) = lm_f T (tr j))) /\
+     (phi (lm_f T (tr (S j))) <= phi (lm_f T (tr j)))%R) /\
+  (phi (half_sq T t0 t1 tadd tmul tdiv (F (lm_x T st))) <= phi (half_sq T t0 t1 tadd tmul tdiv (F x0)))%R.
+Proof. intros T t0 t1 tadd tmul tsub topp Tth tdiv tleb phi E Hd F Jf solve rnorm n nu0 gradtol x0 maxit st i.
+       exact (lm_descent_pkg T t0 t1 tadd tmul tsub topp Tth tdiv tleb phi E Hd F Jf solve rnorm n nu0 gradtol x0 maxit st i). Qed.
+Print Assumptions C16_lm_descent.
+
+(* ... and for the instance the correspondence check actually runs with one unknown (residuals a_i x^2 + b_i x + c_i, LA.solve a
+   division, LA.norm an absolute value, carrier Qc) EVERY hypothesis above is a theorem: for all coefficient lists, x0, nu0,
+   gradtol >= 0 and maxit the objective never increases along the run, each x_{j+1} is x_j or x_j - s_j, nu stays >= 0. *)
+Theorem C16_lm_descent_one_unknown :
+  forall (co : list (Qc * Qc * Qc)) (nu0 gradtol x0 : Qc) (maxit : nat) (st : q_lm_state) (i : nat),
+  (0 <= phiQ gradtol)%R ->
+  q_lm_solve co nu0 gradtol (x0 :: nil) maxit = (st, i) ->
+  let tr := fun j => lm_iter Qc 0%Qc 1%Qc Qcplus Qcmult Qcminus Qcopp Qcdiv qc_leb (quadF co) (quadJ co) q_solve1 q_norm1 1 nu0 j (q_lm_init co (x0 :: nil)) in
+  let f := fun x => q_half_sq (quadF co x) in
+  st = tr i /\
+  (forall j, (j <= i)%nat -> lm_f Qc (tr j) = f (lm_x Qc (tr j)) /\ (0 <= phiQ (lm_nu Qc (tr j)))%R /\ length (lm_x Qc (tr j)) = 1%nat) /\
+  (forall j, (j < i)%nat ->
+     qc_leb (f (lm_x Qc (tr (S j)))) (f (lm_x Qc (tr j))) = true /\
+     (lm_x Qc (tr (S j)) = lm_x Qc (tr j) \/
+      lm_x Qc (tr (S j)) = vsub Qcminus (lm_x Qc (tr j)) (step_s Qc 0%Qc 1%Qc Qcplus Qcmult q_solve1 1 (tr j)))) /\
+  qc_leb (f (lm_x Qc st)) (f (x0 :: nil)) = true.
+Proof. exact q_lm_descent_one. Qed.
+Print Assumptions C16_lm_descent_one_unknown.
+
+(* first-order condition to the tolerance, in the sense of calculus (carrier R, residuals differentiable along lines with Jacobian
+   jacfun): at the point LM returns before maxit EVERY directional derivative l of 1/2|F|^2 satisfies |l| <= gradtol |g(x0)| |d| *)
+Theorem C16_lm_first_order :
+  forall (n m : nat) (F : list R -> list R) (Jf : list R -> list (list R)) (solve : list (list R) -> list R -> list R),
+  (forall M g, length (solve M g) = n) ->
+  (forall x, length x = n -> wf_mat n (Jf x) /\ length (Jf x) = m) ->
+  (forall x, length x = n -> length (F x) = m) ->
+  (forall x d i, length x = n -> length d = n -> (i < m)%nat ->
+     is_derive (fun t => nth i (F (line x d t)) 0%R) 0%R (nth i (matvec 0%R Rplus Rmult (Jf x) d) 0%R)) ->
+  forall (nu0 gradtol : R) (x0 : list R) (maxit : nat) (st : lm_state R) (i : nat),
+  length x0 = n ->
+  lm_solve R 0%R 1%R Rplus Rmult Rminus Ropp Rdiv Rleb F Jf solve Rnorm2 n nu0 gradtol x0 maxit = (st, i) ->
+  (i < maxit)%nat ->
+  forall d, length d = n ->
+    exists l, is_derive (fun t => (/ 2 * normsq 0%R Rplus Rmult (F (line (lm_x R st) d t)))%R) 0%R l /\
+              (Rabs l <= gradtol * Rnorm2 (grad n F Jf x0) * Rnorm2 d)%R.
+Proof. exact lm_first_order_R. Qed.
+Print Assumptions C16_lm_first_order.
+
+(* non-vacuity of the LM theorems: r(x) = x^2 + 1 from x0 = 1/4 with the default nu0 -- every hypothesis of C16_lm_descent holds
+   (solver hypothesis at each of the 3 iterations), the first step is REJECTED (x kept, nu doubled), the second accepted with a
+   strictly smaller objective *)
+Example C16_lm_descent_nonvacuous :
+  let co := qco ((1, 0, 1) :: nil)%Q in
+  let x0 := qc (1 # 4) in let nu0 := qc (1 # 1000) in let gradtol := qc (1 # 100) in
+  let tr := fun j => lm_iter Qc 0%Qc 1%Qc Qcplus Qcmult Qcminus Qcopp Qcdiv qc_leb (quadF co) (quadJ co) q_solve1 q_norm1 1 nu0 j (q_lm_init co (x0 :: nil)) in
+  (0 <= phiQ gradtol)%R /\
+  (exists st, q_lm_solve co nu0 gradtol (x0 :: nil) 3 = (st, 3%nat)) /\
+  (forall j, (j < 3)%nat -> solved Qc 0%Qc 1%Qc Qcplus Qcmult q_solve1 1 (tr j)) /\
+  lm_x Qc (tr 1%nat) = lm_x Qc (tr 0%nat) /\ lm_nu Qc (tr 1%nat) = (lm_nu Qc (tr 0%nat) + lm_nu Qc (tr 0%nat))%Qc /\
+  lm_x Qc (tr 2%nat) <> lm_x Qc (tr 1%nat) /\ qc_leb (lm_f Qc (tr 1%nat)) (lm_f Qc (tr 2%nat)) = false.
+Proof. exact lm_descent_nonvacuous_ex. Qed.
+Print Assumptions C16_lm_descent_nonvacuous.
+
+(* ------------------------------------------------------------------------------------------------
+   every exit path of CGLS / PCGLS has a postcondition
+   ------------------------------------------------------------------------------------------------
+   exit_paths res iterx x0 maxit tol x k  (Proofs/C16_Exit.v) unfolds to:  x = iterx k, k <= maxit, maxit > 0 -> k > 0,
+   at every earlier iterate 0 < j < k BOTH clauses  |res x_j|^2 <= tol^2 |res x0|^2  and  1 <= |x_j|^2 tol^2  are false, and
+     (R) k > 0 and the residual clause holds at x                                    -- the converged exit
+  \/ (X) k > 0, the residual clause is FALSE at x and 1 <= |x|^2 tol^2               -- finding ...|normx-clause-returns-unconverged-point
+  \/ (M) k = maxit and (k = 0 or both clauses are false at x)                         -- iteration cap.
+   res is the residual of the shifted normal equations for CGLS and the preconditioned unshifted one for PCGLS. *)
+Theorem C16_cgls_exit_paths :
+  forall (T : Type) (t0 t1 : T) (tadd tmul tsub : T -> T -> T) (topp : T -> T),
+  ring_theory t0 t1 tadd tmul tsub topp eq ->
+  forall (tdiv : T -> T -> T) (tleb : T -> T -> bool) (teps : T)
+         (n m : nat) (fwd adj : list T -> list T) (b : list T),
+  linear_op T tadd tmul n m fwd adj -> length b = m ->
+  forall (shift : T) (x0 : list T) (maxit : nat) (tol : T) (x : list T) (k : nat), length x0 = n ->
+  cgls_solve T t0 t1 tadd tmul tsub tdiv tleb teps fwd adj b shift x0 maxit tol = (x, k) ->
+  exit_paths T t0 t1 tadd tmul tleb
+             (fun v => vsub tsub (adj (vsub tsub b (fwd v))) (vscale tmul shift v))
+             (fun j => cg_x T (cgls_iter T t0 tadd tmul tsub tdiv tleb teps fwd adj shift j (cgls_init T t0 tadd tmul tsub fwd adj b shift x0)))
+             x0 maxit tol x k.
+Proof. exact cgls_exit_paths. Qed.
+Print Assumptions C16_cgls_exit_paths.
+
+Theorem C16_pcgls_exit_paths :
+  forall (T : Type) (t0 t1 : T) (tadd tmul tsub : T -> T -> T) (topp : T -> T),
+  ring_theory t0 t1 tadd tmul tsub topp eq ->
+  forall (tdiv : T -> T -> T) (tleb : T -> T -> bool) (teps : T)
+         (n m : nat) (fwd adj : list T -> list T) (b : list T),
+  linear_op T tadd tmul n m fwd adj -> length b = m ->
+  forall (pinv pinvT : list T -> list T) (shift : T) (x0 : list T) (maxit : nat) (tol : T) (x : list T) (k : nat),
+  (forall y, length y = n -> length (pinv y) = n) -> (forall y, length y = n -> length (pinvT y) = n) ->
+  length x0 = n ->
+  pcgls_solve T t0 t1 tadd tmul tsub tdiv tleb teps fwd adj b pinv pinvT shift x0 maxit tol = (x, k) ->
+  exit_paths T t0 t1 tadd tmul tleb
+             (fun v => pinvT (adj (vsub tsub b (fwd v))))
+             (fun j => cg_x T (pcgls_iter T t0 tadd tmul tsub tdiv tleb teps fwd adj pinv pinvT j (pcgls_init T t0 tadd tmul tsub fwd adj b pinvT x0)))
+             x0 maxit tol x k.
+Proof. exact pcgls_exit_paths. Qed.
+Print Assumptions C16_pcgls_exit_paths.
+
+(* what exit (X) means over an ordered carrier: tol <> 0, the returned point is LARGE, |x|^2 >= 1/tol^2, and it is NOT converged:
+   |res x|^2 > tol^2 |res x0|^2 *)
+Theorem C16_normx_exit_postcondition :
+  forall (T : Type) (t0 t1 : T) (tadd tmul tsub : T -> T -> T) (topp : T -> T) (tleb : T -> T -> bool) (phi : T -> R),
+  embedding T t0 t1 tadd tmul tsub topp tleb phi ->
+  forall (res : list T -> list T) (x0 x : list T) (tol : T),
+  tleb (normsq t0 tadd tmul (res x)) (tmul (normsq t0 tadd tmul (res x0)) (tmul tol tol)) = false ->
+  tleb t1 (tmul (normsq t0 tadd tmul x) (tmul tol tol)) = true ->
+  (phi tol <> 0 /\ 0 < phi (normsq t0 tadd tmul x) /\
+   / (phi tol * phi tol) <= phi (normsq t0 tadd tmul x) /\
+   phi (normsq t0 tadd tmul (res x0)) * (phi tol * phi tol) < phi (normsq t0 tadd tmul (res x)))%R.
+Proof. exact normx_exit_reading. Qed.
+Print Assumptions C16_normx_exit_postcondition.
+
+(* all three exits are realised by the model at Qc (3x2 matrix, x0 = 0): (R) tol 1e-6, (X) b = 1e9 [1,2,3], (M) tol 0, maxit 1 *)
+Example C16_exit_paths_nonvacuous :
+  let A := qmat ((1 :: 0 :: nil) :: (0 :: 2 :: nil) :: (1 :: 1 :: nil) :: nil)%Q in
+  let fwd := qmatvec A in let adj := qmattvec 2 A in
+  let x0 := qvec (0 :: 0 :: nil)%Q in
+  let res := fun b v => ne_residual 2 A b 0%Qc v in
+  let res_ok := fun b tol v => qc_leb (qnormsq (res b v)) (qnormsq (res b x0) * (tol * tol))%Qc in
+  let normx := fun tol v => qc_leb 1%Qc (qnormsq v * (tol * tol))%Qc in
+  let b1 := qvec (1 :: 2 :: 3 :: nil)%Q in let b2 := qvec (1000000000 :: 2000000000 :: 3000000000 :: nil)%Q in
+  let tol := qc (1 # 1000000) in
+  (exists x, q_cgls_solve fwd adj b1 0%Qc x0 10 tol = (x, 2%nat) /\ res_ok b1 tol x = true) /\
+  (exists x, q_cgls_solve fwd adj b2 0%Qc x0 10 tol = (x, 1%nat) /\ res_ok b2 tol x = false /\ normx tol x = true) /\
+  (exists x, q_cgls_solve fwd adj b1 0%Qc x0 1 0%Qc = (x, 1%nat) /\ res_ok b1 0%Qc x = false /\ normx 0%Qc x = false).
+Proof. exact exit_paths_nonvacuous_ex. Qed.
+Print Assumptions C16_exit_paths_nonvacuous.
+
+(* ------------------------------------------------------------------------------------------------
+   PCGLS = CGLS on the preconditioned operator; PCGLS run to convergence solves the normal equations
+   ------------------------------------------------------------------------------------------------ *)
+
+(* For every start (written x0 = P^-1 y0), every iteration count and whatever step lengths the recurrences pick (any ring, any
+   division / comparison / eps): the PCGLS iterates are  x_k = P^-1 y_k  for the CGLS iterates y_k of the operator A P^-1
+   (adjoint P^-T A^T, shift 0) started at y0, with IDENTICAL r_k, s_k, p_k, gamma_k; and with tol = 0 both loops return after the
+   same number of iterations.  (pfwd' = fwd o pinv, padj' = pinvT o adj; A and P^-1 linear with exact adjoints.) *)
+Theorem C16_pcgls_is_cgls_preconditioned :
+  forall (T : Type) (t0 t1 : T) (tadd tmul tsub : T -> T -> T) (topp : T -> T),
+  ring_theory t0 t1 tadd tmul tsub topp eq ->
+  forall (tdiv : T -> T -> T) (tleb : T -> T -> bool) (teps : T)
+         (n m : nat) (fwd adj pinv pinvT : list T -> list T) (b : list T),
+  adjoint_pair T t0 tadd tmul tsub n m fwd adj -> adjoint_pair T t0 tadd tmul tsub n n pinv pinvT -> length b = m ->
+  forall (y0 : list T), length y0 = n ->
+  (forall k,
+     let ps := pcgls_iter T t0 tadd tmul tsub tdiv tleb teps fwd adj pinv pinvT k (pcgls_init T t0 tadd tmul tsub fwd adj b pinvT (pinv y0)) in
+     let cs := cgls_iter T t0 tadd tmul tsub tdiv tleb teps (pfwd' T fwd pinv) (padj' T adj pinvT) t0 k
+                 (cgls_init T t0 tadd tmul tsub (pfwd' T fwd pinv) (padj' T adj pinvT) b t0 y0) in
+     cg_x T ps = pinv (cg_x T cs) /\ cg_r T ps = cg_r T cs /\ cg_s T ps = cg_s T cs /\ cg_p T ps = cg_p T cs /\ cg_gamma T ps = cg_gamma T cs) /\
+  (forall shift_arg maxit,
+     let c := cgls_solve T t0 t1 tadd tmul tsub tdiv tleb teps (pfwd' T fwd pinv) (padj' T adj pinvT) b t0 y0 maxit t0 in
+     pcgls_solve T t0 t1 tadd tmul tsub tdiv tleb teps fwd adj b pinv pinvT shift_arg (pinv y0) maxit t0 = (pinv (fst c), snd c)).
+Proof.
+  intros T t0 t1 tadd tmul tsub topp Tth tdiv tleb teps n m fwd adj pinv pinvT b OPA OPP Hb y0 Hy. split.
+  - intros k. cbn zeta.
+    destruct (pcgls_iterates_preconditioned T t0 t1 tadd tmul tsub topp Tth tdiv tleb teps n m fwd adj pinv pinvT b OPA OPP Hb y0 k Hy)
+      as (H1 & H2 & H3 & H4 & H5 & _).
+    repeat split; assumption.
+  - intros shift_arg maxit. cbn zeta.
+    exact (pcgls_is_cgls_preconditioned T t0 t1 tadd tmul tsub topp Tth tdiv tleb teps n m fwd adj pinv pinvT b OPA OPP Hb shift_arg y0 maxit Hy).
+Qed.
+Print Assumptions C16_pcgls_is_cgls_preconditioned.
+
+(* "Run to convergence" for PCGLS, in exact arithmetic (carrier embedded in R with compatible division): if A P^-1 has trivial
+   kernel, PCGLS(A, b, x0, P, maxit >= max(n,1), tol = 0).solve() returns within max(n,1) iterations, from any start x0 = P^-1 y0,
+   a point with  P^-T A^T (b - A x) = 0;  when P^-T has trivial kernel this is  A^T (b - A x) = 0,  the normal equations
+   (of the UNSHIFTED problem: the shift argument is ignored, finding PCGLS.solve|shift-ignored). *)
+Theorem C16_pcgls_run_to_convergence :
+  forall (T : Type) (t0 t1 : T) (tadd tmul tsub : T -> T -> T) (topp : T -> T),
+  ring_theory t0 t1 tadd tmul tsub topp eq ->
+  forall (tdiv : T -> T -> T) (tleb : T -> T -> bool) (teps : T) (phi : T -> R),
+  embedding T t0 t1 tadd tmul tsub topp tleb phi ->
+  (forall a b, phi b <> 0%R -> phi (tdiv a b) = (phi a / phi b)%R) ->
+  forall (n m : nat) (fwd adj pinv pinvT : list T -> list T) (b : list T),
+  adjoint_pair T t0 tadd tmul tsub n m fwd adj -> adjoint_pair T t0 tadd tmul tsub n n pinv pinvT -> length b = m ->
+  pos_def T t0 tadd tmul phi n (pfwd' T fwd pinv) t0 ->
+  forall (shift_arg : T) (y0 : list T) (maxit : nat) (x : list T) (k : nat),
+  length y0 = n -> (Nat.max n 1 <= maxit)%nat ->
+  pcgls_solve T t0 t1 tadd tmul tsub tdiv tleb teps fwd adj b pinv pinvT shift_arg (pinv y0) maxit t0 = (x, k) ->
+  (1 <= k <= Nat.max n 1)%nat /\ length x = n /\
+  phi (normsq t0 tadd tmul (pinvT (adj (vsub tsub b (fwd x))))) = 0%R /\
+  ((forall v, length v = n -> phi (normsq t0 tadd tmul (pinvT v)) = 0%R -> phi (normsq t0 tadd tmul v) = 0%R) ->
+   phi (normsq t0 tadd tmul (adj (vsub tsub b (fwd x)))) = 0%R).
+Proof.
+  intros T t0 t1 tadd tmul tsub topp Tth tdiv tleb teps phi E Hd n m fwd adj pinv pinvT b OPA OPP Hb PD shift_arg y0 maxit x k Hy Hmax H.
+  destruct (pcgls_exact_convergence T t0 t1 tadd tmul tsub topp Tth tdiv tleb teps n m fwd adj pinv pinvT b OPA OPP Hb phi E Hd PD
+              shift_arg y0 maxit x k Hy Hmax H) as (H1 & H2 & H3).
+  split; [exact H1|]. split; [exact H2|]. split; [exact H3|].
+  intros Hinj. apply Hinj; [ | exact H3].
+  destruct OPA as (A1 & A2 & A3 & A4 & A5 & A6 & A7). apply A6. rewrite vsub_length; rewrite ?A3; auto.
+Qed.
+Print Assumptions C16_pcgls_run_to_convergence.
+
+(* non-vacuity at Qc: A = [[1,0],[0,2],[1,1]], P^-1 = [[1/2,0],[-1/2,1]] (P = [[2,0],[1,1]]): all hypotheses hold and the model run with
+   tol = 0 returns after 2 = n iterations a point where A^T (b - A x) = 0 exactly *)
+Example C16_pcgls_convergence_nonvacuous :
+  let A := qmat ((1 :: 0 :: nil) :: (0 :: 2 :: nil) :: (1 :: 1 :: nil) :: nil)%Q in
+  let Pinv := qmat (((1 # 2) :: 0 :: nil) :: ((-1 # 2) :: 1 :: nil) :: nil)%Q in
+  let b := qvec (1 :: 2 :: 3 :: nil)%Q in
+  let y0 := qvec (1 :: -1 :: nil)%Q in
+  adjoint_pair Qc 0%Qc Qcplus Qcmult Qcminus 2 3 (qmatvec A) (qmattvec 2 A) /\
+  adjoint_pair Qc 0%Qc Qcplus Qcmult Qcminus 2 2 (qmatvec Pinv) (qmattvec 2 Pinv) /\
+  pos_def Qc 0%Qc Qcplus Qcmult phiQ 2 (pfwd' Qc (qmatvec A) (qmatvec Pinv)) 0%Qc /\
+  exists x, q_pcgls_solve (qmatvec A) (qmattvec 2 A) b (qmatvec Pinv) (qmattvec 2 Pinv) 0%Qc (qmatvec Pinv y0) 7 0%Qc = (x, 2%nat) /\
+            qnormsq (qmattvec 2 A (qvsub b (qmatvec A x))) = 0%Qc.
+Proof. exact pcgls_convergence_nonvacuous_ex. Qed.
+Print Assumptions C16_pcgls_convergence_nonvacuous.
